@@ -575,6 +575,7 @@ func (w *pqW) exec(r *hx.Run, f []string) (string, string) {
 			rep = atoi(f[2])
 		}
 		vals, p := w.q.popUntil(f[1], rep)
+		retainInts(w.name, line, vals)
 		for _, it := range w.popped(r, "popuntil", vals) {
 			if w.ms.before(p, it.p) {
 				fail(r, w.name, "popuntil", "pop-until", fmt.Sprintf("PopUntil(%v) returned %d with priority %v", p, it.v, it.p))
@@ -592,6 +593,7 @@ func (w *pqW) exec(r *hx.Run, f []string) (string, string) {
 		return line, showInts(vals)
 	case "popall":
 		vals := w.q.popAll()
+		retainInts(w.name, line, vals)
 		w.popped(r, "popall", vals)
 		if len(w.ms.live) != 0 {
 			fail(r, w.name, "popall", "multiset", fmt.Sprintf("PopAll left %v behind", w.ms.live))
